@@ -748,7 +748,9 @@ class SSHTransportBase(protocol.Protocol):
             # only in '\n'.
             # https://tools.ietf.org/html/rfc4253#section-4.2
             lines = self.buf.split(b"\n")
-            for p in lines:
+            # The last element is whatever follows the last '\n': not a
+            # complete line yet.
+            for i, p in enumerate(lines[:-1]):
                 if p.startswith(b"SSH-"):
                     self.gotVersion = True
                     # Since the line was split on '\n' and most of the time
@@ -758,8 +760,11 @@ class SSHTransportBase(protocol.Protocol):
                     if remoteVersion not in self.supportedVersions:
                         self._unsupportedVersionReceived(remoteVersion)
                         return
-                    i = lines.index(p)
                     self.buf = b"\n".join(lines[i + 1 :])
+                    break
+            else:
+                # Only banner lines so far; keep waiting for the version line.
+                return
         packet = self.getPacket()
         while packet:
             messageNum = ord(packet[0:1])
